@@ -52,7 +52,7 @@ def run(ctx):
     pty = {i: b.local_ty(i) for i in range(1, b.j['arg_count'] + 1)}
     bmp = [i for i, t in pty.items() if 'BitmapEvent' in t]
     buf = [i for i, t in pty.items() if re.search(r'Vec<u32>', t)]
-    wid = [i for i in pty if b.local_name(i) == 'width']
+    wid = [i for i, t in pty.items() if t == 'usize']        # the row stride is the only usize parameter
     if not (len(bmp) == 1 and len(buf) == 1 and len(wid) == 1):
         ctx.fail('R19.0', 'signature', 'fast_bitmap_transfer no longer has the (buffer: &mut Vec<u32>, width, bitmap: BitmapEvent) parameters the rules are stated over: %s' % pty, b.where())
         return
